@@ -79,6 +79,7 @@ type frame struct {
 	backedge map[[2]int]bool
 	loopHead map[*ssa.BasicBlock]bool
 	loopOrd  map[*ssa.BasicBlock]int
+	curObj   map[string]types.Object // the variable object behind curNames[name] when known (nil entry: a phi)
 	loops    map[*ssa.BasicBlock]*loopState
 	cur      Term // current path condition inside the block being executed
 	depth    int
@@ -118,6 +119,8 @@ type loopState struct {
 	decPre   Term
 	mapPhis  map[*ssa.Phi]*Loc
 	rangeIdx *ssa.Phi
+	countIdx *ssa.Phi // induction variable of a counted loop (0, 1, 2, ...)
+	countGuard *ssa.BinOp // the header's `i < n` when n is stable across the loop
 	visCur   Term // the visited-keys ghost of a map range, as seen by the clause being translated
 	rng      *rangeState
 }
@@ -592,6 +595,10 @@ func (e *enc) ensureGlobal(g *ssa.Global) string {
 			e.mem[key] = e.fresh("g0_"+g.Name(), e.so.of(elem))
 			e.assumeWF(e.mem[key], elem, 2)
 			e.inputs = append(e.inputs, modelVar{Name: g.Pkg.Pkg.Name() + "." + g.Name(), Term: e.mem[key], Ty: elem, NDecl: len(e.decls)})
+			if g.Pkg != nil && g.Pkg.Pkg.Path() == "os" && (g.Name() == "Stdout" || g.Name() == "Stderr" || g.Name() == "Stdin") {
+				e.assume(fmt.Sprintf("(> %s 0)", e.mem[key]))
+				e.assumps["os.Stdin / os.Stdout / os.Stderr are non-nil files"] = true
+			}
 		}
 		// make the initial value visible to every already-saved snapshot (entry memory etc.)
 		for f := e.fr; f != nil; f = f.parent {
@@ -621,7 +628,14 @@ func (e *enc) heapKey(elem types.Type) string {
 	if _, ok := e.mem[key]; !ok {
 		e.memSort[key] = fmt.Sprintf("(Array Int %s)", es)
 		e.memTy[key] = elem
-		e.mem[key] = e.fresh("heap0_"+es, e.memSort[key])
+		if e.readOnlyExt(elem) {
+			// structs of a read-only external package (go/ast: the repository never stores into them): one constant heap for
+			// the whole run, so that spec functions reading it are functions of their arguments
+			e.mem[key] = e.uf("ROH_"+clean(es), nil, e.memSort[key])
+			e.assumps["go/ast nodes are read-only data: no repository function stores into them (checked over the SSA of the repository); external calls do not modify them"] = true
+		} else {
+			e.mem[key] = e.fresh("heap0_"+es, e.memSort[key])
+		}
 		for f := e.fr; f != nil; f = f.parent {
 			if f.entryMem != nil {
 				if _, ok := f.entryMem[key]; !ok {
@@ -760,7 +774,20 @@ func (l *Loc) objSort(e *enc) string {
 	return strings.TrimSuffix(s, ")")
 }
 
+func (e *enc) readOnlyExt(elem types.Type) bool {
+	n, ok := elem.(*types.Named)
+	if !ok || n.Obj().Pkg() == nil || n.Obj().Pkg().Path() != "go/ast" {
+		return false
+	}
+	return !e.w.extWritten("go/ast")
+}
+
 func (e *enc) havocKey(k string) {
+	if strings.HasPrefix(k, "H:") {
+		if ty, ok := e.memTy[k]; ok && e.readOnlyExt(ty) {
+			return
+		}
+	}
 	for pk := range e.ptrIn {
 		if pk == k || strings.HasPrefix(pk, k+"|") {
 			delete(e.ptrIn, pk)
